@@ -3,6 +3,7 @@ package props
 import (
 	"fmt"
 	"go/token"
+	"go/types"
 	"sort"
 	"strings"
 
@@ -703,6 +704,40 @@ func readTarget(p *core.Prog, s site) string {
 	return short(x)
 }
 
+// alertTargets: the connection an alert is written to exists on every path
+// that gets there: NewConn's own transport parameter, or the receiver of the
+// Conn method that reports the error. (NewConn's result is still nil when the
+// first record is refused.)
+func alertTargets(p *core.Prog, r *core.Run, rule string) {
+	conv := p.Func(Ech, "convertErrorsToAlerts")
+	if conv == nil {
+		r.Undecided(rule, "alert-target", "-", "convertErrorsToAlerts not found")
+		return
+	}
+	n := 0
+	for _, s := range allCalls(p, p.PkgFuncs(Ech)) {
+		if s.X.Fn != conv || len(s.X.Args) < 1 {
+			continue
+		}
+		n++
+		a := s.X.Args[0]
+		root := core.Root(s.Fn)
+		ok := false
+		switch {
+		case a.Op == "param" && root.Signature.Recv() != nil && a.Name == "p0":
+			ok = true // the method's receiver
+		case a.Op == "param":
+			// a parameter of interface type handed in by the caller (the transport)
+			if prm, isP := a.Val.(*ssa.Parameter); isP {
+				_, isIface := prm.Type().Underlying().(*types.Interface)
+				ok = isIface
+			}
+		}
+		r.Check(rule, fmt.Sprintf("alert-target:%s#%d", p.FuncName(root), n), ok, p.InstrPos(s.Instr), "the alert goes to %s: the caller's transport or the method's receiver, which exist on every path (a connection object under construction may still be nil)", short(a))
+	}
+	r.Check(rule, "alert-targets", n >= 1, p.Pos(conv.Pos()), "%d callers of the alert conversion", n)
+}
+
 // isTableTest: the fact tests errors.Is(err, tbl[i].f) for a local literal table.
 func isTableTest(p *core.Prog, f core.Fact) *tableRef {
 	if f.L == nil || f.L.Op != "call" || f.L.Name != "errors.Is" || len(f.L.Args) != 2 || f.L.Args[0].Op != "param" {
@@ -716,6 +751,7 @@ func isTableTest(p *core.Prog, f core.Fact) *tableRef {
 }
 
 func c04AlertMap(p *core.Prog, r *core.Run, m *echModel) {
+	alertTargets(p, r, "C04.ALERT.map")
 	conv := p.Func(Ech, "convertErrorsToAlerts")
 	send := p.Func(Ech, "sendAlert")
 	if conv == nil || send == nil {
